@@ -187,10 +187,6 @@ def splitSemi (xs : List String) : List (List String) :=
     if x == ";" then ([], p.2 ++ [p.1]) else (p.1 ++ [x], p.2)) ([], [])
   acc ++ [cur]
 
-inductive Line
-  | setmeta (c : Nat) (m : Meta)
-  | batch (cmds : List Cmd)
-
 def parseLine (s : State) (op : String) : Option Line :=
   match fields op with
   | [] => none
@@ -216,7 +212,7 @@ def dump (s : State) : String :=
     let m := match s.meta? c with | some m => fmtMeta m | none => "-"
     let a := match s.activeIdx? c with | some i => toString i | none => "0"
     s!" M{c}:{m} A{c}:{a}")
-  let ts := s.tasks.map (fun t => s!" T{t.chan}.{t.id}:{fmtTask t}")
+  let ts := (sortTasks s.tasks).map (fun t => s!" T{t.chan}.{t.id}:{fmtTask t}")
   String.join (chans ++ ts)
 
 def parsePlus (s : String) : Option (List Nat) :=
@@ -250,15 +246,15 @@ def parseDump (d : String) : Option State :=
     | [k, v] =>
       if k.startsWith "M" then
         match (k.drop 1).toString.toNat? with
-        | some c => if v == "-" then some s else (parseMeta v).map (fun m => { s with metas := insertKV c m s.metas })
+        | some c => if v == "-" then some s else (parseMeta v).map (fun m => { s with metas := putKV c m s.metas })
         | none => none
       else if k.startsWith "A" then
         match (k.drop 1).toString.toNat?, v.toNat? with
-        | some c, some i => if i == 0 then some s else some { s with active := insertKV c i s.active }
+        | some c, some i => if i == 0 then some s else some { s with active := putKV c i s.active }
         | _, _ => none
       else if k.startsWith "T" then
         match ((k.drop 1).toString.splitOn ".").map String.toNat? with
-        | [some c, some i] => (parseTask c i v).map (fun t => { s with tasks := insertTask t s.tasks })
+        | [some c, some i] => (parseTask c i v).map (fun t => { s with tasks := putTaskRow t s.tasks })
         | _ => none
       else none
     | _ => none) State.empty
@@ -376,10 +372,11 @@ def step (d : DState) (op impl : String) : DState × String × String :=
   | none => (d, "bad-op", "ok")
   | some line =>
     -- model
-    let (model', mres) :=
+    let model' := stepLine d.model line
+    let mres :=
       match line with
-      | .setmeta c m => let r := setMeta d.model c m; (r.1, r.2)
-      | .batch cmds => let r := applyBatch d.model cmds; (r.1, resStr r.2)
+      | .setmeta c m => (setMeta d.model c m).2
+      | .batch cmds => resStr (applyBatch d.model cmds).2
     let mout := mres ++ " #" ++ dump model'
     -- judge on the implementation's output
     let (_, idump) := splitOut impl
